@@ -138,6 +138,15 @@ Definition meta_zero := mkmeta 0 0 0 0 0.   (* memset(meta, 0, sizeof) *)
 Definition partial_block (bw n : N) (vs : list N) : list N :=
   [u8 (N.lor 128 bw); u8 n] ++ (if 0 <? bw then pack bw vs else []).
 
+(* the header parse shared by the four array decoders:
+     header = *ptr; if (header & 0x80) { bitWidth = header & 0x7F; blockSize = ptr[1]; data at ptr+2 }
+     else { bitWidth = header; blockSize = 128; data at ptr+1 }
+   result: (header & 0x80 != 0, bitWidth, blockSize, bytes after the header) *)
+Definition read_header (z : list N) : bool * N * N * list N :=
+  let header := byte_at z 0 in
+  if negb (N.land header 128 =? 0) then (true, N.land header 127, byte_at z 1, skipn 2%nat z)
+  else (false, header, 128, skipn 1%nat z).
+
 (* ------------------------------------------------------------------ *)
 (* varintBP128Encode32 *)
 
@@ -189,14 +198,12 @@ Fixpoint dec32_loop (fuel : nat) (z : list N) (room : N) : option (list N) :=
   | S f =>
     if room =? 0 then Some []
     else
-      let header := byte_at z 0 in
-      if negb (N.land header 128 =? 0) then
-        let bw := N.land header 127 in
-        let bc := byte_at z 1 in
+      let '(part, bw, bc, z1) := read_header z in
+      if part then
         let bc := if room <? bc then u8 room else bc in
         if bw =? 0 then Some (repeat 0 (N.to_nat bc))
         else if 32 <? bw then (if bc =? 0 then Some [] else None)
-        else Some (unpack_at bw bc (skipn 2%nat z))
+        else Some (unpack_at bw bc z1)
       else if room <? 128 then Some []
       else
         match decode_block32 z with
@@ -276,14 +283,12 @@ Fixpoint ddec32_loop (fuel : nat) (z : list N) (room : N) (prev : N) : option (l
   | S f =>
     if room =? 0 then Some []
     else
-      let header := byte_at z 0 in
-      if negb (N.land header 128 =? 0) then
-        let bw := N.land header 127 in
-        let bc := byte_at z 1 in
+      let '(part, bw, bc, z1) := read_header z in
+      if part then
         let bc := if room <? bc then u8 room else bc in
         if bw =? 0 then Some (psum32 prev (repeat 0 (N.to_nat bc)))
         else if 32 <? bw then (if bc =? 0 then Some [] else None)
-        else Some (psum32 prev (unpack_at bw bc (skipn 2%nat z)))
+        else Some (psum32 prev (unpack_at bw bc z1))
       else if room <? 128 then Some []
       else
         match delta_decode_block32 z prev with
@@ -363,11 +368,7 @@ Fixpoint dec64_loop (fuel : nat) (z : list N) (room : N) : option (list N) :=
   | S f =>
     if room =? 0 then Some []
     else
-      let header := byte_at z 0 in
-      let part := negb (N.land header 128 =? 0) in
-      let bw := if part then N.land header 127 else header in
-      let bs := if part then byte_at z 1 else 128 in
-      let z1 := skipn (if part then 2 else 1) z in
+      let '(part, bw, bs, z1) := read_header z in
       let bs := if room <? bs then room else bs in
       if bw =? 0 then
         match dec64_loop f z1 (room - bs) with
@@ -456,11 +457,7 @@ Fixpoint ddec64_loop (fuel : nat) (z : list N) (room : N) (prev : N) : option (l
   | S f =>
     if room =? 0 then Some []
     else
-      let header := byte_at z 0 in
-      let part := negb (N.land header 128 =? 0) in
-      let bw := if part then N.land header 127 else header in
-      let bs := if part then byte_at z 1 else 128 in
-      let z1 := skipn (if part then 2 else 1) z in
+      let '(part, bw, bs, z1) := read_header z in
       let bs := if room <? bs then room else bs in
       if (64 <? bw) && negb (bs =? 0) then None
       else
